@@ -12,12 +12,12 @@
 (*         and after the call                                              *)
 (*  "plu": Pluto, equatorial J2000: Pq = Pluto(t - tau) rotated by the     *)
 (*         J2000 obliquity (c0 s0), S = Sun.rectangular_coordinates_j2000  *)
-(*  "min": minor body on any conic: S as above, u returned direction,      *)
-(*         nrm / per / qer = unit vectors of the orbit normal, perihelion  *)
-(*         and the in-plane direction 90 deg ahead of it (equatorial       *)
-(*         J2000, from i, node, argument of perihelion), delta = geocentric*)
-(*         distance solving the plane equation, r = |H|, q e, dtp = t -    *)
-(*         tau - T (days), elements-dependent witnesses (see below)        *)
+(*  "min": minor body on any conic: S as above (RS its norm, us its unit   *)
+(*         vector), u returned direction, per / qer = unit vectors towards *)
+(*         perihelion and 90 deg ahead of it in the orbit plane            *)
+(*         (equatorial J2000, from i, node, argument of perihelion), q e,  *)
+(*         dtp = t - tau - T (days), delta tau, and the harness's own      *)
+(*         solution of Kepler's / Barker's equation as a witness           *)
 (***************************************************************************)
 EXTENDS TraceKit, Sphere, Kepler
 
@@ -56,43 +56,46 @@ VerdictPlu ==
 \cup Viol("GEOCENTRIC_DIRECTION", PointsAlong(Ev.u, G, Ev.delta, Rad(1, 4)))
 \cup Viol("EPOCH_NOT_SHIFTED", Ev.ja = Ev.jb)
 
-\* Minor body.  H = delta u - S is the heliocentric position one light-time earlier.
-\* It must lie in the orbital plane, on the conic r (1 + e cos v) = q (1 + e) and at the place Kepler's
-\* (or Barker's) equation assigns to the time t - tau - T.
+\* Minor body.  The harness solves Kepler's (Barker's) equation itself for the time t - tau - T and hands over the
+\* solution as a WITNESS (E with sE cE, or s = tan(v/2)); TLC verifies that the witness satisfies the equation, rebuilds
+\* the heliocentric position H from it in the orbit frame (per, qer), adds the library's own Sun vector S and requires
+\* the returned direction u to point along H + S to 1e-4 degree.  (An earlier form decoded the distance from the
+\* returned direction through the plane equation; that is ill-conditioned when the line of sight is close to the
+\* orbital plane and raised false alarms in the thorough tier - see DESIGN section 7.)
 VerdictMin ==
-  IF Ev.oc # "ok" THEN (IF Ev.oc = "behind" THEN {"IN_ORBITAL_PLANE"} ELSE {"TOTAL"}) ELSE
-  LET H == <<Sub(Mul(Ev.delta, Ev.u[1]), Ev.S[1]), Sub(Mul(Ev.delta, Ev.u[2]), Ev.S[2]), Sub(Mul(Ev.delta, Ev.u[3]), Ev.S[3])>>
-      xp == Dot(H, Ev.per)          \* r cos v
-      yp == Dot(H, Ev.qer)          \* r sin v
-      tolr == Mul(Rad(1, 4), Add(Ev.r, One))
-  IN Viol("WITNESS", /\ IsUnit(Ev.u) /\ IsUnit(Ev.nrm) /\ IsUnit(Ev.per) /\ IsUnit(Ev.qer)
-                     /\ Le(Abs(Dot(Ev.nrm, Ev.per)), Dec(1, 10)) /\ Le(Abs(Dot(Ev.nrm, Ev.qer)), Dec(1, 10)) /\ Le(Abs(Dot(Ev.per, Ev.qer)), Dec(1, 10))
-                     /\ Near(Mul(Ev.r, Ev.r), Norm2(H), Mul(Dec(1, 9), Norm2(H))) /\ Gt(Ev.delta, Zero))
-\cup Viol("IN_ORBITAL_PLANE", Le(Abs(Dot(H, Ev.nrm)), tolr))
-\cup Viol("ON_THE_CONIC", Near(Add(Ev.r, Mul(Ev.e, xp)), Mul(Ev.q, Add(One, Ev.e)), Mul(tolr, FromInt(2))))
+  IF Ev.oc # "ok" THEN {"TOTAL"} ELSE
+  LET xy == IF Ev.conic = "parabola"
+            THEN <<Mul(Ev.q, Sub(One, Mul(Ev.s, Ev.s))), MulInt(Mul(Ev.q, Ev.s), 2)>>           \* r cos v, r sin v
+            ELSE <<Mul(Ev.a, Sub(Ev.cE, Ev.e)), Mul(Ev.b, Ev.sE)>>
+      H == <<Add(Mul(xy[1], Ev.per[1]), Mul(xy[2], Ev.qer[1])), Add(Mul(xy[1], Ev.per[2]), Mul(xy[2], Ev.qer[2])),
+             Add(Mul(xy[1], Ev.per[3]), Mul(xy[2], Ev.qer[3]))>>
+      G == <<Add(H[1], Ev.S[1]), Add(H[2], Ev.S[2]), Add(H[3], Ev.S[3])>>
+      witness ==
+        /\ IsUnit(Ev.u) /\ IsUnit(Ev.per) /\ IsUnit(Ev.qer) /\ IsUnit(Ev.us) /\ Le(Abs(Dot(Ev.per, Ev.qer)), Dec(1, 10))
+        /\ Near(Mul(Ev.delta, Ev.delta), Norm2(G), Mul(Dec(1, 10), Norm2(G)))
+        /\ Near(Norm2(Ev.S), Mul(Ev.RS, Ev.RS), Dec(1, 10)) /\ IsSC(Ev.cel, Ev.sel)
+        /\ Near(Mul(Ev.RS, Ev.us[1]), Ev.S[1], Dec(1, 10)) /\ Near(Mul(Ev.RS, Ev.us[2]), Ev.S[2], Dec(1, 10))
+        /\ Near(Mul(Ev.RS, Ev.us[3]), Ev.S[3], Dec(1, 10))
+        /\ IF Ev.conic = "parabola"
+           THEN \* Barker: s^3 + 3 s = W, W = 0.03649116245 (t - tau - T) / (q sqrt q)
+                /\ Near(Mul(Ev.sq, Ev.sq), Ev.q, Mul(Dec(1, 12), Ev.q))
+                /\ Near(Mul(Add(Mul(Mul(Ev.s, Ev.s), Ev.s), MulInt(Ev.s, 3)), Mul(Ev.q, Ev.sq)),
+                        Mul(Add(Dec(364911624, 10), Dec(5, 11)), Ev.dtp),
+                        Mul(Dec(1, 9), Add(One, Abs(Ev.dtp))))
+           ELSE \* Kepler: E - e sin E = M (degrees, modulo whole turns), M a sqrt(a) = 0.9856076686 (t - tau - T)
+                /\ IsSC(Ev.sE, Ev.cE)
+                /\ Near(Mul(Ev.a, Sub(One, Ev.e)), Ev.q, Mul(Dec(1, 10), Ev.a))
+                /\ Near(Mul(Ev.b, Ev.b), Mul(Mul(Ev.a, Ev.a), Sub(One, Mul(Ev.e, Ev.e))), Mul(Dec(1, 10), Mul(Ev.a, Ev.a)))
+                /\ Near(Mul(Ev.sa, Ev.sa), Ev.a, Mul(Dec(1, 11), Ev.a))
+                /\ Near(Mul(Ev.Mraw, Mul(Ev.a, Ev.sa)), Mul(Add(Dec(985607668, 9), Dec(6, 10)), Ev.dtp),
+                        Mul(Dec(1, 9), Add(One, Abs(Mul(Ev.Mraw, Mul(Ev.a, Ev.sa))))))
+                /\ WithinMod(Sub(Ev.E, Mul(Mul(Ev.e, Ev.sE), Rad2Deg)), Ev.Mraw, 360, Dec(1, 9))
+  IN Viol("WITNESS", witness)
+\cup Viol("LIGHT_TIME", Near(Ev.tau, Mul(LightTime, Ev.delta), Dec(1, 7)))
+\cup Viol("GEOCENTRIC_DIRECTION", PointsAlong(Ev.u, G, Ev.delta, Rad(1, 4)))
+\cup Viol("ELONGATION_VALUE", ElongOK(Ev.u, Ev.us, Ev.cel, Ev.sel, Rad(2, 2)))
+\cup Viol("ELONGATION_RANGE", Ge(Ev.elong, Zero) /\ Le(Ev.elong, FromInt(180)))
 \cup Viol("EPOCH_NOT_SHIFTED", Ev.ja = Ev.jb)
-\cup (IF Ev.conic = "parabola"
-      THEN \* Barker: s^3 + 3 s = W,  s = tan(v/2) = yp / (r + xp),  W = 3 k (t - tau - T) / (sqrt(2) q^1.5);
-           \* here in the form Meeus uses: W = 0.03649116245 dtp / (q sqrt q);  sq = sqrt(q) witness
-           LET den == Add(Ev.r, xp)
-               \* cross-multiplied by den^3 q sq:  (yp^3 + 3 yp den^2) q sq = 0.03649116245 dtp den^3
-               lhs == Mul(Mul(Add(Mul(Mul(yp, yp), yp), MulInt(Mul(yp, Mul(den, den)), 3)), Ev.q), Ev.sq)
-               rhs == Mul(Mul(Add(Dec(364911624, 10), Dec(5, 11)), Ev.dtp), Mul(Mul(den, den), den))
-           IN Viol("WITNESS", Near(Mul(Ev.sq, Ev.sq), Ev.q, Mul(Dec(1, 12), Ev.q)))
-         \cup Viol("TIME_ALONG_ORBIT", Near(lhs, rhs, Mul(Dec(3, 5), Add(Abs(rhs), Mul(Mul(den, den), den)))))
-      ELSE \* ellipse: a = q / (1 - e); e a cos E = a - r;  b sin E = yp with b = a sqrt(1 - e^2) (witness);
-           \* then E - e sin E = n dtp (mod 360) with n = 0.9856076686 / (a sqrt a) deg/day (witness sa = sqrt a)
-           LET a == Ev.a IN
-           Viol("WITNESS", /\ Near(Mul(a, Sub(One, Ev.e)), Ev.q, Mul(Dec(1, 10), a))
-                           /\ Near(Mul(Ev.b, Ev.b), Mul(Mul(a, a), Sub(One, Mul(Ev.e, Ev.e))), Mul(Dec(1, 10), Mul(a, a)))
-                           /\ Near(Mul(Ev.sa, Ev.sa), a, Mul(Dec(1, 11), a)) /\ SC(Ev.sE, Ev.cE))
-      \cup Viol("ECCENTRIC_ANOMALY", /\ Near(Mul(Mul(Ev.e, a), Ev.cE), Sub(a, Ev.r), Mul(tolr, FromInt(4)))
-                                     /\ Near(Mul(Ev.b, Ev.sE), yp, Mul(tolr, FromInt(4))))
-      \cup Viol("TIME_ALONG_ORBIT",      \* M a sqrt(a) = 0.9856076686 dtp, M = E - e sin E (deg), modulo whole revolutions
-                LET M == Sub(Ev.E, Mul(Mul(Ev.e, Ev.sE), Rad2Deg))
-                IN /\ Near(Mul(Ev.Mraw, Mul(a, Ev.sa)), Mul(Add(Dec(985607668, 9), Dec(6, 10)), Ev.dtp),
-                           Mul(Dec(1, 9), Add(One, Abs(Mul(Ev.Mraw, Mul(a, Ev.sa))))))
-                   /\ WithinMod(M, Ev.Mraw, 360, Dec(4, 4))))
 
 Verdict == CASE Ev.k = "pl" -> VerdictPl [] Ev.k = "plu" -> VerdictPlu [] Ev.k = "min" -> VerdictMin [] OTHER -> {"UNKNOWN_KIND"}
 Init == TraceInit(0)
